@@ -30,6 +30,10 @@ type Kill struct {
 	N     int64  `json:",omitempty"`
 	When  int64  `json:",omitempty"` // strace: SIGKILL on entry of the When-th write/pwrite64
 	Ms    int    `json:",omitempty"` // timer: SIGKILL from outside after Ms milliseconds
+	// Restart (with Type none, Hook, N): the first process runs to its end; the first restart
+	// is killed at the N-th hit of Hook (a restart has no business writing, and if it writes,
+	// a kill between its statements must not lose anything); a second restart is judged
+	Restart bool `json:",omitempty"`
 }
 
 func (k Kill) String() string {
@@ -45,6 +49,9 @@ func (k Kill) String() string {
 		return fmt.Sprintf("strace-write@%d", k.When)
 	case "timer":
 		return fmt.Sprintf("timer@%dms", k.Ms)
+	}
+	if k.Restart {
+		return fmt.Sprintf("none (first restart killed at %s@%d)", k.Hook, k.N)
 	}
 	return "none"
 }
@@ -301,6 +308,18 @@ func runCaseOnce(c *lib.Ctx, h *History, k Kill, withB bool) *RunResult {
 	rr.ALog = tailFile(filepath.Join(base, "A.log"), 3000)
 	if !withB || rr.AState == "timeout" || strings.HasPrefix(rr.AState, "spawn-error") {
 		return rr
+	}
+	if k.Restart {
+		rc0 := RunCfg{Hist: h, Ports: rr.Ports, Dir: tsdir, Out: filepath.Join(base, "b0.dump"), KeepProfile: !h.DropProfile}
+		b0, _ := json.Marshal(&rc0)
+		b0Run := filepath.Join(base, "b0.json")
+		os.WriteFile(b0Run, b0, 0o644)
+		st := spawn(base, "B", b0Run, fmt.Sprintf("%s=kill@%d", k.Hook, k.N), nil, 0, 240*time.Second)
+		if strings.HasPrefix(st, "signal") {
+			c.Observe("restarts-killed-at:"+k.Hook, 1)
+		} else {
+			c.Observe("restart-kill-point-not-reached", 1)
+		}
 	}
 	rcB := RunCfg{Hist: h, Ports: rr.Ports, Dir: tsdir, Out: filepath.Join(base, "b.dump"), KeepProfile: !h.DropProfile}
 	b, _ = json.Marshal(&rcB)
@@ -789,6 +808,9 @@ func run(c *lib.Ctx) {
 			continue // debugging aid, never set by the driver
 		}
 		h := genHistory(c.Seed, hidx, c.Thorough())
+		if h.LateParent && pos == 0 {
+			c.Observe("histories-ending-with-takeover-by-a-later-parent", 1)
+		}
 		if h.ParentDeath && pos == 0 {
 			c.Observe("histories-ending-with-death-of-a-parent", 1)
 		}
@@ -843,6 +865,16 @@ func run(c *lib.Ctx) {
 				}
 			}
 			unitNo++
+		}
+		// (5) kills of the first restart itself, at the first hit of each database write point
+		if hidx%2 == 0 || c.Thorough() {
+			points := []string{"db.ListenerAdd.exec", "db.AgentAdd.exec", "db.LinkAdd.exec"}
+			if c.Thorough() {
+				points = append(points, "db.ListenerRemove.exec", "db.AgentUpdate.exec", "db.LinkRemove.exec")
+			}
+			for _, nm := range points {
+				extra = append(extra, Kill{Type: "none", Hook: nm, N: 1, Restart: true})
+			}
 		}
 		for j, k := range extra {
 			if j%gsize == pos {
